@@ -285,6 +285,21 @@ def build_request(method: typing.Any, url: typing.Any, *, headers: typing.Any = 
 # ---------------------------------------------------------------------------
 
 
+def n_requests(pool: typing.Any) -> int:
+    """Requests the pool still counts (active + queued), read from its public
+    repr(): '<ConnectionPool [Requests: 1 active, 0 queued | Connections: ...]>'."""
+    import re
+
+    m = re.search(r"Requests: (\d+) active, (\d+) queued", repr(pool))
+    if not m:
+        raise HarnessError_("cannot read the request counts from repr(pool)")
+    return int(m.group(1)) + int(m.group(2))
+
+
+class HarnessError_(Exception):
+    pass
+
+
 def conn_kind(c: typing.Any) -> str:
     return f"{type(c).__name__}[{c.info()}]"
 
@@ -294,7 +309,7 @@ def stuck_connections(pool: typing.Any) -> list[str]:
     closed or expired; anything else can neither be reused for another origin,
     expire, nor be evicted."""
     out = []
-    for c in pool._connections:
+    for c in pool.connections:
         if c.is_closed() or c.is_idle() or c.has_expired():
             continue
         out.append(conn_kind(c))
@@ -302,4 +317,4 @@ def stuck_connections(pool: typing.Any) -> list[str]:
 
 
 def pool_summary(pool: typing.Any) -> str:
-    return f"requests={len(pool._requests)} connections={[c.info() for c in pool._connections]}"
+    return f"requests={n_requests(pool)} connections={[c.info() for c in pool.connections]}"
